@@ -52,6 +52,11 @@ class Spec:
     def show(self, case):
         return case.to_json()
 
+    def post_check(self, case, res):
+        """Extra decision on a case whose model and implementation results agree; return a reason
+        string when the implementation's output violates the property."""
+        return None
+
     def extra_checks(self, scratch, binary, rng, tier, report):
         """Hook for checks that are not case-file shaped (simulator runs, translators ...).
         report is the Report; may add failures / mismatches / counters."""
@@ -97,6 +102,11 @@ def classify(spec, batch, cases, results, report):
                 continue
         elif bad_oracles:
             why = "oracle " + ",".join(sorted(bad_oracles)) + " is false on the implementation's output"
+        if not why and r["impl"] is not None:
+            try:
+                why = spec.post_check(c, r)     # an oracle on the implementation's output, model or no model
+            except Exception as e:
+                why = None
         if why:
             report.failures.append((c, r, why))
             continue
